@@ -1,3 +1,55 @@
-(* C16 -- placeholder while the tie is brought up; theorems follow. *)
-From Y Require Import Prelude Node Loader LoadRun.
-Theorem C16_placeholder : True. Proof. exact I. Qed.
+(* C16 -- UnknownNode.require_* accept exactly the nodes they describe.
+   Statements only; proofs in Proofs/RequireProofs.v.  In the model the helpers are functions from the node to
+   a verdict (true: returns normally, false: raises RecognitionError): they have no way of modifying the node;
+   that the implementation does not either is checked by the tie on every case (harness/props/c16.py). *)
+From Coq Require Import NArith ZArith List Bool String.
+Import ListNotations.
+From Y Require Import Prelude Node Tables NodeOps Types Recognize ScalarProofs RequireProofs.
+Open Scope N_scope.
+
+Theorem C16_require_scalar : forall o recog n kinds, (forall k, In k kinds -> tag_of_kind k <> None) ->
+  (require o recog n (RqScalar (map TyK kinds)) = Ok true <-> spec_scalar n kinds).
+Proof. exact require_scalar_spec. Qed.
+Theorem C16_require_mapping : forall o recog n, require o recog n RqMapping = Ok true <-> exists t ps m, n = Map t ps m.
+Proof. exact require_mapping_spec. Qed.
+Theorem C16_require_sequence : forall o recog n, require o recog n RqSequence = Ok true <-> exists t l m, n = Seq t l m.
+Proof. exact require_sequence_spec. Qed.
+(* present and, if a type is given, recognisable as that type by the rules the loader itself uses *)
+Theorem C16_require_attribute : forall o reg fuel n a T,
+  let recog := fun v T => match recognize o reg fuel v T with Ok (tys, _) => negb (is_nil tys) | Err _ => false end in
+  (require o recog n (RqAttr a None) = Ok true <-> exists t ps m v rest, n = Map t ps m /\ lookup_all a ps = v :: rest) /\
+  (require o recog n (RqAttr a (Some T)) = Ok true <->
+   exists t ps m v rest tys e, n = Map t ps m /\ lookup_all a ps = v :: rest /\
+                               recognize o reg fuel v T = Ok (tys, e) /\ tys <> []).
+Proof.
+  intros o reg fuel n a T recog. split; [|apply require_attribute_uses_recognize].
+  rewrite require_attribute_spec. unfold spec_attr. split.
+  - intros (t&ps&m&v&rest&H1&H2&_). eauto 8.
+  - intros (t&ps&m&v&rest&H1&H2). exists t, ps, m, v, rest. auto.
+Qed.
+Print Assumptions C16_require_attribute.
+(* a present scalar of the value's type that is equal / present and not equal *)
+Theorem C16_require_attribute_value : forall o recog t ps m a v vn, one_attr ps a vn ->
+  (require o recog (Map t ps m) (RqAttrValue a v) = Ok true <->
+   is_scalar vn (TyK (kind_of_sval v)) = Ok true /\ sval_eq_node o v vn = Ok true).
+Proof. exact require_attribute_value_spec. Qed.
+Theorem C16_require_attribute_value_not : forall o recog t ps m a v vn, one_attr ps a vn ->
+  (require o recog (Map t ps m) (RqAttrValueNot a v) = Ok true <->
+   is_scalar vn (TyK (kind_of_sval v)) = Ok false \/
+   (is_scalar vn (TyK (kind_of_sval v)) = Ok true /\ sval_eq_node o v vn = Ok false)).
+Proof. exact require_attribute_value_not_spec. Qed.
+Theorem C16_value_checks_need_the_attribute : forall o recog t ps m a v,
+  Forall (fun kv => match fst kv with Scalar t kv' _ => ueqb t tag_str && ueqb kv' a | _ => false end = false) ps ->
+  require o recog (Map t ps m) (RqAttrValue a v) = Ok false /\ require o recog (Map t ps m) (RqAttrValueNot a v) = Ok false.
+Proof. exact require_value_missing. Qed.
+Print Assumptions C16_require_attribute_value_not.
+
+(* non-vacuity *)
+Local Open Scope string_scope.
+Example C16_ex : let n := Map tag_map [(Scalar tag_str (u "kind") nomark, Scalar tag_str (u "circle") nomark);
+                                       (Scalar tag_str (u "r") nomark, Scalar tag_int (u "3") nomark)] nomark in
+  require [] (fun _ _ => true) n (RqAttrValue (u "kind") (SvStr (u "circle"))) = Ok true /\
+  require [] (fun _ _ => true) n (RqAttrValue (u "kind") (SvStr (u "square"))) = Ok false /\
+  require [] (fun _ _ => true) n (RqAttrValueNot (u "kind") (SvStr (u "square"))) = Ok true /\
+  require [] (fun _ _ => true) n (RqScalar [TyK KInt]) = Ok false.
+Proof. vm_compute. repeat split; reflexivity. Qed.
